@@ -184,11 +184,11 @@ pub fn run(ctx: &Ctx, rec: &mut Rec) {
     }
     let mut work: Vec<(usize, Inp, String)> = Vec::new();
     for (gi, g) in gs.iter().enumerate() {
-        if g.name.contains("(constant") || g.kind == "EBits" && !ctx.tier_thorough {
+        if g.name.contains("(constant") {
             continue;
         }
         rec.declare_form(&format!("tamper: {}", g.name));
-        let budget = ctx.scale(24, 200);
+        let budget = if g.kind == "EBits" { ctx.scale(6, 40) } else { ctx.scale(24, 200) };
         for (inp, cl) in inputs_for(ctx, g, &zoo, &mut zrng, budget) {
             work.push((gi, inp, cl));
         }
